@@ -113,9 +113,9 @@ def _all_leaf_nodes_visited(t, node_p) -> bool:
 
 
 def _names_terms(m, ctx, outer, cls, fi):
-    """the terms that, inside visit_Call, denote the list of names handed to change_extension_functions_to_calls:
-    the enclosing function's parameter (closure), or an attribute that __init__ fills, unchanged, from a constructor
-    argument to which the driver passes that parameter."""
+    """the terms that, inside visit_Call, denote the list of names handed to change_extension_functions_to_calls"""
+    from ..lib import carried_param_terms
+
     dflt = outer.node.args.defaults
     pos = outer.node.args.posonlyargs + outer.node.args.args
     pname = None
@@ -124,28 +124,7 @@ def _names_terms(m, ctx, outer, cls, fi):
             pname = a_.arg
     if pname is None and len(outer.pos_params) >= 2:
         pname = outer.pos_params[1]
-    out = [("free", pname)]
-    init = cls.methods.get("__init__")
-    if init is not None and len(init.pos_params) >= 2:
-        fi_a = ctx.analysis(init)
-        ofa = ctx.analysis(outer)
-        for n in own_nodes(init):
-            if isinstance(n, ast.Assign) and len(n.targets) == 1 and isinstance(n.targets[0], ast.Attribute) and isinstance(n.targets[0].value, ast.Name) and n.targets[0].value.id == init.pos_params[0]:
-                v = strip_sites(fi_a.term_of(n.value))
-                if v[0] != "param" or v[1] not in init.pos_params[1:]:
-                    continue
-                k = init.pos_params.index(v[1]) - 1
-                attr = n.targets[0].attr
-                # no other store to the attribute anywhere in the class
-                others = [x for f_ in cls.methods.values() for x in own_nodes(f_) if isinstance(x, ast.Attribute) and x.attr == attr and isinstance(x.ctx, (ast.Store, ast.Del)) and x is not n.targets[0]]
-                if others:
-                    continue
-                for c in calls_in(outer):
-                    if isinstance(c.func, ast.Name) and c.func.id == cls.name:
-                        actual = c.args[k] if k < len(c.args) else next((kw.value for kw in c.keywords if kw.arg == v[1]), None)
-                        if actual is not None and strip_sites(ofa.term_of(actual)) == ("param", pname):
-                            out.append(("attr", ("param", fi.pos_params[0]), attr))
-    return out
+    return carried_param_terms(m, ctx, outer, cls, fi, pname)
 
 
 def _membership_fact(fa, fx: Facts, V, node_p, names_terms) -> bool:
